@@ -12,10 +12,23 @@
    answered truthfully: the generated chain applied to Counter(results), len(stuck), normal.
    `run early_exit ps sched` executes the small-step model of run_test (main loop steps and
    solver callbacks interleaved as the event list `sched` dictates); `result` is the
-   TestResult (label, exitcode) once the main loop and all callbacks are over. *)
+   TestResult (label, exitcode) once the main loop and all callbacks are over.
+
+   --cache-solver (Model/VerdictCacheModel.v; Gen/GenUnsatCore.v = check_unsat_cores and the
+   cache_solver switch of from_result, Gen/GenCoreAppend.v = the guard under which the callback
+   appends a core, both regenerated on every run): a `qpath` adds to a path the ids naming the
+   assertions of its query (`qids`) and the core list carried by the solver's `unsat` reply
+   (`qcore`: None = no parsable core, Some [] = the empty list `()`).  `crun cache early_exit qs
+   sched` is the small-step system with the shared core list: CStart j = the worker thread
+   enters solve_end_to_end for the query of path j and consults the cache as it is at that
+   moment (a hit answers `unsat` without asking the solver), CCb j = the done-callback records
+   the result and possibly appends the reply's core; `cresult` is the TestResult. *)
 From Coq Require Import ZArith List Bool String Ascii Permutation.
-From HV Require Import Spec.VerdictSpec Gen.GenVerdict Gen.GenSolveDispatch Model.VerdictModel Proofs.VerdictProofs.
+From HV Require Import Spec.VerdictSpec Gen.GenVerdict Gen.GenSolveDispatch Gen.GenUnsatCore Gen.GenCoreAppend
+                       Model.VerdictModel Model.VerdictCacheModel Proofs.VerdictProofs Proofs.VerdictCacheProofs.
 Import ListNotations.
+Local Open Scope list_scope.
+Local Open Scope nat_scope.
 
 (* PASS exactly when every potential-violation query is unsat, every stuck path is refuted by
    the solver (unsat), and at least one path succeeded *)
@@ -149,6 +162,126 @@ Proof.
   repeat split; reflexivity.
 Qed.
 Print Assumptions C05_schedule_refuted_no_early_exit.
+
+(* ---------------------------------------------------------------- --cache-solver: the answer to a
+   query may come from the shared core list, i.e. depend on which callbacks ran before the
+   worker started -- the completion order of the solver processes. *)
+
+(* every run with the cache is observably a run without it on the same paths (hence every theorem
+   above about `run` applies), for all interleavings of worker starts, callbacks and main-loop
+   steps -- without --cache-solver unconditionally, with it provided the solver honours its own
+   non-empty cores: it answers unsat on every potential-violation query that contains a non-empty
+   core it reported for another one.
+   An EMPTY core list names no assertion and promises nothing: it is exempt, so the theorem
+   holds only because the code never caches one. *)
+Theorem C05_cache_refines : forall cache ee qs sched,
+  (cache = true ->
+   forall p q c, In p qs -> In q qs -> potential (base p) = true -> potential (base q) = true ->
+     ans (base p) = Unsat -> qcore p = Some c -> c <> [] ->
+     (forall x, In x c -> In x (qids q)) -> ans (base q) = Unsat) ->
+  exists sched',
+    (In EvMainRaise sched' -> In CMainRaise sched) /\
+    cresult (crun cache ee qs sched) = result (run ee (map base qs) sched').
+Proof. exact cache_refines. Qed.
+Print Assumptions C05_cache_refines.
+
+(* in particular: without --early-exit the verdict is the specified one for every order in which
+   solver answers arrive and are consumed, cache on or off *)
+Theorem C05_cache_schedule : forall cache qs sched r,
+  (cache = true ->
+   forall p q c, In p qs -> In q qs -> potential (base p) = true -> potential (base q) = true ->
+     ans (base p) = Unsat -> qcore p = Some c -> c <> [] ->
+     (forall x, In x c -> In x (qids q)) -> ans (base q) = Unsat) ->
+  ~ In CMainRaise sched ->
+  cresult (crun cache false qs sched) = Some r ->
+  r = model_verdict (map base qs) /\ fst r = spec_verdict (map base qs).
+Proof. exact cache_schedule_no_early_exit. Qed.
+Print Assumptions C05_cache_schedule.
+
+(* all schedules, with and without --early-exit: the same three outcomes as without the cache *)
+Theorem C05_cache_schedule_any_partial : forall cache ee qs sched r,
+  (cache = true ->
+   forall p q c, In p qs -> In q qs -> potential (base p) = true -> potential (base q) = true ->
+     ans (base p) = Unsat -> qcore p = Some c -> c <> [] ->
+     (forall x, In x c -> In x (qids q)) -> ans (base q) = Unsat) ->
+  cresult (crun cache ee qs sched) = Some r ->
+  r = model_verdict (map base qs) \/
+  (ee = true /\ spec_verdict (map base qs) = LFail /\ r = (raised_label, raised_exitcode) /\
+   exists p, In p (map base qs) /\ kind p = Stuck) \/
+  (r = (raised_label, raised_exitcode) /\ exists p, In p (map base qs) /\ kind p = Stuck /\ ans p = Err).
+Proof. exact cache_schedule_any. Qed.
+Print Assumptions C05_cache_schedule_any_partial.
+
+(* PASS is never affected by the cache or the schedule *)
+Theorem C05_cache_failsafe : forall cache ee qs sched r,
+  (cache = true ->
+   forall p q c, In p qs -> In q qs -> potential (base p) = true -> potential (base q) = true ->
+     ans (base p) = Unsat -> qcore p = Some c -> c <> [] ->
+     (forall x, In x c -> In x (qids q)) -> ans (base q) = Unsat) ->
+  cresult (crun cache ee qs sched) = Some r ->
+  (fst r = LPass <-> spec_verdict (map base qs) = LPass) /\ (snd r = EX_PASS <-> spec_verdict (map base qs) = LPass).
+Proof. exact cache_failsafe. Qed.
+Print Assumptions C05_cache_failsafe.
+
+(* PASS is sound with the cache under solver SOUNDNESS alone (no assumption that the solver answers
+   every query it could): let `sem ids = true` mean "the assertions named by ids are jointly
+   unsatisfiable" (monotone in ids).  If every `unsat` answer and every NON-EMPTY core of the solver
+   is true, then a PASS -- under every schedule, with or without --early-exit -- implies that every
+   potential-violation query really is unsatisfiable, every stuck path was refuted, and some path
+   succeeded.  (For a real `sem`, sem [] = false: the empty list cannot be a true core.) *)
+Theorem C05_cache_pass_sound : forall (sem : list nat -> bool) qs,
+  (forall a b, (forall x, In x a -> In x b) -> sem a = true -> sem b = true) ->
+  (forall p, In p qs -> potential (base p) = true -> ans (base p) = Unsat ->
+     sem (qids p) = true /\ (forall c, qcore p = Some c -> c <> [] -> sem c = true)) ->
+  forall cache ee sched r,
+  cresult (crun cache ee qs sched) = Some r -> fst r = LPass ->
+  (forall p, In p qs -> potential (base p) = true -> sem (qids p) = true) /\
+  (forall p, In p qs -> kind (base p) = Stuck -> ans (base p) = Unsat) /\
+  (exists p, In p qs /\ kind (base p) = Success).
+Proof. exact (fun sem qs M S => cache_pass_sound sem M qs S). Qed.
+Print Assumptions C05_cache_pass_sound.
+
+(* without --cache-solver the two systems agree whatever core lists the replies carry *)
+Theorem C05_nocache_refines : forall ee qs sched,
+  exists sched',
+    (In EvMainRaise sched' -> In CMainRaise sched) /\
+    cresult (crun false ee qs sched) = result (run ee (map base qs) sched').
+Proof. exact nocache_refines. Qed.
+Print Assumptions C05_nocache_refines.
+
+(* without --cache-solver the shared list stays empty and no query is answered from it *)
+Theorem C05_nocache_inert : forall ee qs sched,
+  ccores (crun false ee qs sched) = [] /\ chits (crun false ee qs sched) = [].
+Proof. exact nocache_no_cores. Qed.
+Print Assumptions C05_nocache_inert.
+
+(* the consistency hypothesis cannot be dropped: a solver that reports the core [1] for one query
+   but times out on another query containing assertion 1 makes the verdict depend on the
+   completion order -- PASS if the core arrives before the second query is started, TIMEOUT
+   otherwise (both are defensible: the second query IS unsatisfiable) *)
+Theorem C05_cache_order_dependent_without_consistency :
+  exists qs s1 s2,
+    cresult (crun true false qs s1) = Some (LPass, EX_PASS) /\
+    cresult (crun true false qs s2) = Some (LTimeout, EX_TIMEOUT).
+Proof. exact cache_order_dependent_without_consistency. Qed.
+Print Assumptions C05_cache_order_dependent_without_consistency.
+
+(* non-vacuity of the cache model: two panic paths sharing assertion 1; the first is answered
+   `unsat` with core [1]; started after that callback the second is answered from the cache (one
+   hit, PASS -- consistent, its truthful answer is unsat); an EMPTY core is not cached: the second
+   query goes to the solver, which says sat: FAIL in both orders *)
+Example C05_cache_nonvacuous :
+  let mains := [CMain; CMain; CMain; CMain; CMain; CMain; CMain] in
+  let qs := [mkq (mkpath Panic Unsat) [1; 2] (Some [1]); mkq (mkpath Panic Unsat) [1; 3] (Some [1; 3]); mkq (mkpath Success Unsat) [1] None] in
+  let qe := [mkq (mkpath Panic Unsat) [1; 2] (Some []); mkq (mkpath Panic (Sat true)) [1; 3] None; mkq (mkpath Success Unsat) [1] None] in
+  cresult (crun true false qs (mains ++ [CStart 0; CCb 0; CStart 1; CCb 1])) = Some (LPass, EX_PASS) /\
+  chits (crun true false qs (mains ++ [CStart 0; CCb 0; CStart 1; CCb 1])) = [1] /\
+  chits (crun true false qs (mains ++ [CStart 0; CStart 1; CCb 0; CCb 1])) = [] /\
+  cresult (crun true false qs (mains ++ [CStart 0; CCb 0; CStart 1])) = None /\
+  cresult (crun true false qe (mains ++ [CStart 0; CCb 0; CStart 1; CCb 1])) = Some (LFail, EX_COUNTEREXAMPLE) /\
+  cresult (crun true false qe (mains ++ [CStart 1; CCb 1; CStart 0; CCb 0])) = Some (LFail, EX_COUNTEREXAMPLE) /\
+  ccores (crun true false qe (mains ++ [CStart 0; CCb 0; CStart 1; CCb 1])) = [].
+Proof. cbv zeta. repeat split; reflexivity. Qed.
 
 (* SolverOutput.from_result, completely: the class is decided by the first line of stdout alone
    (exactly "unsat" / "sat" / "unknown"); everything else -- empty output, garbage, different
